@@ -63,7 +63,7 @@ def check(repo: Repo, R) -> None:
     recs = pat.find("self.ext_modules[id(emod)] = $PM", fe.node)
     app = len(apps) == 1 and len(recs) == 1 and ast.unparse(apps[0][1]["PM"]) == ast.unparse(recs[0][1]["PM"])
     # declared once: everything that declares runs only when id(emod) is not yet in the map
-    memo = app and all(shared.cond_match(fe.node, x, "id(emod) in self.ext_modules", False, use_prov=False) for x in (apps[0][0], recs[0][0]))
+    memo = app and all(shared.presence(fe.node, x, "self.ext_modules", "id(emod)") is False for x in (apps[0][0], recs[0][0]))
     R.check(memo and app, rule, key_of(fe), fe.site, f"each external module is declared once ({memo}) and appended to the package ({app})", why="an external module is declared twice, or never")
 
     # ---- 2 uniqueness
